@@ -35,6 +35,16 @@ class Model:
         self.functions = {}     # (file, name) -> FunctionDef  (module-level)
         self.parent = {}
         self.file_of = {}       # id(ast node of FunctionDef/ClassDef) -> file
+        if vocab:
+            pre = []
+            for pkg in PACKAGES:
+                for p in sorted((self.repo / pkg).glob("*.py")):
+                    try:
+                        pre.append(ast.parse(p.read_text()))
+                    except SyntaxError:
+                        pass
+            NZ.REBOUND[0] = NZ.collect_rebound(pre)
+            NZ.REBOUND_SITES[0] = NZ.collect_rebound_sites(pre)
         for pkg in PACKAGES:
             d = self.repo / pkg
             if not d.is_dir():
